@@ -45,17 +45,17 @@ type sHist struct{}
 func (sHist) Observe(float64) {}
 
 type sWorld struct {
-	mu       sync.Mutex
-	K        int
-	src      *sSource
-	dests    []*sDest
-	dlq      *sDLQ
-	dlqSize  int
-	dlqTh    int
-	cancelled bool // the run was cut short from outside (force stop / injected failure)
-	filtered map[int]bool // a processor filtered the record out
-	procErr  map[int]bool // a processor rejected the record
-	procs    []*sProc
+	mu        sync.Mutex
+	K         int
+	src       *sSource
+	dests     []*sDest
+	dlq       *sDLQ
+	dlqSize   int
+	dlqTh     int
+	cancelled bool         // the run was cut short from outside (force stop / injected failure)
+	filtered  map[int]bool // a processor filtered the record out
+	procErr   map[int]bool // a processor rejected the record
+	procs     []*sProc
 }
 
 // ---- processor ----
@@ -64,10 +64,10 @@ const (
 	spSingle = iota
 	spFilter
 	spError
-	spRepos  // single record with a changed position (refused by the default engine)
-	spMulti  // fan-out result (refused by the default engine)
-	spNone   // no result at all
-	spTwo    // two results for one record
+	spRepos // single record with a changed position (refused by the default engine)
+	spMulti // fan-out result (refused by the default engine)
+	spNone  // no result at all
+	spTwo   // two results for one record
 	spNumKinds
 )
 
@@ -145,14 +145,14 @@ func (p *sProc) Process(ctx context.Context, recs []opencdc.Record) []sdk.Proces
 // ---- source ----
 
 type sSource struct {
-	w        *sWorld
-	next     int
-	acked    []int
-	opened   int
-	tornDown int
-	stopped  bool
-	stopCh   chan struct{}
-	ackFail  bool
+	w         *sWorld
+	next      int
+	acked     []int
+	opened    int
+	tornDown  int
+	stopped   bool
+	stopCh    chan struct{}
+	ackFail   bool
 	stopAfter int           // the harness asks for a stop once this many records were read
 	served    chan struct{} // closed when stopAfter records have been handed out
 	pauseAt   int           // >0: Read blocks before handing out record pauseAt until resume is closed
@@ -435,16 +435,16 @@ type sCfg struct {
 }
 
 type sPipeline struct {
-	w      *sWorld
-	nodes  []Node
+	w        *sWorld
+	nodes    []Node
 	procNode *ProcessorNode
-	src    *SourceNode
-	ctx    context.Context
-	cancel context.CancelFunc
-	wg     sync.WaitGroup
-	mu     sync.Mutex
-	errs   []error
-	first  error
+	src      *SourceNode
+	ctx      context.Context
+	cancel   context.CancelFunc
+	wg       sync.WaitGroup
+	mu       sync.Mutex
+	errs     []error
+	first    error
 }
 
 func buildPipeline(c sCfg) *sPipeline {
